@@ -181,6 +181,14 @@ func toMap(in any, tag string) (map[string]any, error) {
 				if t[0] == "recorded" && val == uint64(0) {
 					continue
 				}
+				// like encoding/json does for these omitempty fields: a nested entity that was parsed or built in a
+				// transform has no internal id (and may have no id); the stored JSON it is compared with has no such keys
+				if t[0] == "internalId" && val == uint64(0) {
+					continue
+				}
+				if t[0] == "id" && val == "" {
+					continue
+				}
 			}
 			if t[0] == "refs" {
 				refs := val.(map[string]interface{})
